@@ -31,6 +31,7 @@ func runC03(c *Ctx) {
 	if c.Thorough {
 		nh, steps = 25, 45
 	}
+	c03Directed(c)
 	for h := 0; h < nh; h++ {
 		r := c.Rng.Fork()
 		dir := scratchDir("c03")
@@ -88,4 +89,69 @@ func runC03(c *Ctx) {
 		}
 		os.RemoveAll(dir)
 	}
+}
+
+// c03Directed: a fixed script of the label operations whose start-up replay is most intricate (merge, then
+// splits of supervoxels that belong to merged bodies, cleaves, overwrites), with two restarts in a row.
+func c03Directed(c *Ctx) {
+	r := c.Rng.Fork()
+	dir := scratchDir("c03d")
+	defer os.RemoveAll(dir)
+	ch, msg := StartChild(dir, nil)
+	if ch == nil {
+		c.Report("H", "C03 child-start", msg, "")
+		return
+	}
+	w := NewWorld(c, ch, r, true, true, false)
+	n := w.nodes[0]
+	script := []string{"ingest", "ingest", "ingest", "merge", "split", "split", "cleave", "split", "ann", "merge", "split", "child", "ingestm", "split", "merge", "cleave", "ann"}
+	for _, op := range script {
+		switch op {
+		case "ingest":
+			w.lmIngest(n, false)
+		case "ingestm":
+			w.lmIngest(n, true)
+		case "merge":
+			w.lmMerge(n)
+		case "split":
+			w.lmSplitSV(n)
+		case "cleave":
+			w.lmCleave(n)
+		case "ann":
+			w.annPost(n)
+		case "child":
+			if cn := w.child(n, false); cn != nil {
+				n = cn
+			}
+		}
+	}
+	for k := 0; k < 2; k++ {
+		before := w.Snapshot()
+		how := []string{"EXIT", "SHUTDOWN"}[k]
+		ch.Stop(how)
+		ch2, msg := StartChild(dir, nil)
+		if ch2 == nil {
+			c.Report("O", "C03 no-restart", "the server does not start again on its own stores", msg+"\n"+strings.Join(w.hist, "\n"))
+			return
+		}
+		ch = ch2
+		w.s = ch
+		after := w.Snapshot()
+		w.log("restart (%s)", how)
+		bysig := map[string][]string{}
+		for _, d := range diffSnap(before, after) {
+			key := strings.SplitN(d, "\n", 2)[0]
+			bysig[c03Sig(key)] = append(bysig[c03Sig(key)], d)
+		}
+		for sig, ds := range bysig {
+			if len(ds) > 4 {
+				ds = ds[:4]
+			}
+			c.Report("O", "C03 differs-after-restart "+sig, "a read endpoint answers differently after a restart ("+how+")",
+				strings.Join(ds, "\n")+"\n\nhistory:\n  "+strings.Join(w.hist, "\n  "))
+		}
+		c.Evals += len(before)
+	}
+	c.Eval("directed "+strings.Join(w.hist, ";"), true)
+	ch.Kill()
 }
